@@ -364,6 +364,17 @@ theorem list_emits_exactly_from_start (l : Listing) (hl : WF l) (hi : Nat) :
 example : listIter (({} : Listing).insert ⟨some 10, [.unknown "A".toList]⟩ |>.insert ⟨some 5, [.unknown "B".toList]⟩
     |>.insert ⟨some 30, []⟩) 4 (some 5) (some 10) = some [("5 B".toList, []), ("10 A".toList, [])] := by decide
 
+/-- the column computation inside `list_line` is `Error::column()` of that error -/
+theorem errColumn_eq (n : Nat) (e : Error) (h : e.line = some n) :
+    Listing.errColumn n e = Listing.errorColumn e := by
+  unfold Listing.errColumn Listing.errorColumn
+  rw [h]
+  simp [RStd.natDigits]
+  rw [← Nat.toList_repr, String.length_toList]
+
+example : Listing.errColumn 120 { code := 2, line := some 120, colStart := 3, colEnd := 5 } = (7, 9) ∧
+    Listing.errorColumn { code := 2, line := some 120, colStart := 3, colEnd := 5 } = (7, 9) := by decide
+
 /-- `line n` is the single-line case -/
 theorem line_eq (l : Listing) (n : Nat) (hn : n ≤ maxLineNumber) :
     l.line n = (l.source.find? (fun p => inRange (some n) (some n) p.1)).map (render l) := by
